@@ -686,6 +686,9 @@ FOCUS = {
     "tables": ("ellswift", "fresh-curve", "mult-Q", "prep-mult", "double-mult", "multi-mult", "mult-other-ec", "mult-G", "derive-pub", "second-gen", "b58decode", "electrum-old"),
     "musig": ("musig-values", "musig-verify", "musig-verify"),
     "signers": ("dsa-signer", "ssa-signer", "dsa-signer", "ssa-signer", "dsa", "ssa"),
+    # hand-rolled per-curve memos (module dicts) and nothing else: with the bound of such a memo lowered to one
+    # entry every call on another curve is a miss, so check-then-act windows on the dict are a step wide per call
+    "memos": ("ellswift-small", "ellswift-small", "ellswift-small", "second-gen-other"),
 }
 
 
@@ -736,6 +739,15 @@ def catalogue(ctx: Ctx, sh: Shared, wl: Any, k: int, only: tuple[str, ...] | Non
             raw = ch.nbytes(2 * ((_curve(name).p.bit_length() + 7) // 8), "ell.octets")
             k2 = 1 + ch.draw(2**64, "ell.k")
             fn = lambda name=name, raw=raw, k2=k2: _ellswift(name, raw, k2)  # noqa: E731
+        elif kind == "ellswift-small":
+            # Python arm only (no bindings for these curves), short fields: many entries into the memo per run
+            name = ch.pick(["secp192k1", "secp224k1", "secp160k1"], "ells.ec")
+            raw = ch.nbytes(2 * ((_curve(name).p.bit_length() + 7) // 8), "ells.octets")
+            k2 = 1 + ch.draw(2**64, "ells.k")
+            fn = lambda name=name, raw=raw, k2=k2: _ellswift(name, raw, k2)  # noqa: E731
+        elif kind == "second-gen-other":
+            name = ch.pick(["secp192k1", "secp224k1", "secp160k1", "secp112r1", "secp128r1"], "sg.ec")
+            fn = lambda name=name: pedersen.second_generator(_curve(name))  # noqa: E731
         elif kind == "curve-id-reuse":
             na = ch.pick(["secp256k1", "secp128r1", "secp256k1"], "reuse.a")
             nb = ch.pick(["secp112r1", "secp160k1", "secp256k1", "secp128r1"], "reuse.b")
@@ -964,7 +976,8 @@ def _threads(ctx: Ctx, rng: SimRng) -> None:
     _signature_check(ctx)
     sh = Shared(ctx)
     n_thr = 2 + ch.draw(3, "nthreads")
-    focus = ch.pick(["wordlists", "tables", "musig", "mixed", "signers"], "focus")
+    focus = ch.pick(["wordlists", "tables", "musig", "mixed", "signers", "memos"], "focus")
+    focus = str(ctx.cfg.get("focus") or focus)  # a plan may pin the focus; the draw is made either way
     undo_shim = st.patch_attr(mn, "threading", ThreadingShim())
     # the process-wide singletons: same cooperative lock, and cold for this run
     from btclib.mnemonic import electrum as el  # noqa: PLC0415
@@ -1042,21 +1055,27 @@ def _threads(ctx: Ctx, rng: SimRng) -> None:
 
             holder["wl"]._read_wordlist = flaky
         shrink = ch.pick([0, 0, 1, 2, 3], "threads.shrink")
+        if focus == "memos":
+            shrink = 1 + shrink % 2  # the eviction path is the point of this focus
         shrunk = st.ShrunkCaches(shrink) if shrink else None
         if shrunk is not None:
             shrunk_holder.append(shrunk)
             shrunk.__enter__()  # tiny caches and memo bounds while the threads run: eviction paths under interleaving
             ctx.fault("cache-shrink-concurrent", shrink)
-        strat_kind = ch.weighted([("pct", 5), ("unif", 3), ("stagger", 2)] if focus != "signers" else [("pct", 2), ("unif", 6), ("stagger", 1)], "strategy")
+        weights = {"signers": [("pct", 2), ("unif", 6), ("stagger", 1), ("rdv", 2)], "memos": [("pct", 1), ("unif", 1), ("rdv", 8)]}
+        strat_kind = ch.weighted(weights.get(focus, [("pct", 5), ("unif", 3), ("stagger", 2), ("rdv", 2)]), "strategy")
         strategy: dict[str, Any] = {"kind": strat_kind}
         if strat_kind == "pct":
             strategy["d"] = 1 + ch.draw(3, "pct.d")
         else:
             strategy["p"] = ch.pick([(1, 50), (1, 10), (3, 10)], "p")
         dedupe = ch.weighted([("op", 6), ("frame", 3)] + ([("none", 2)] if ctx.cfg.get("every_line") else []), "dedupe")
+        if strat_kind == "rdv" and dedupe == "op":
+            dedupe = "frame"  # every entry into a hot function is a place to park, not only an operation's first
         sched = SimThreads(
             ctx, strategy, dedupe=dedupe,
             max_steps=int(ctx.cfg.get("max_steps", 400000)),
+            hot=st.hot_codes(),
         )
         SimLock.sched = sched
         results: list[list[Any]] = [[] for _ in range(n_thr)]
